@@ -227,7 +227,7 @@ mod resp {
         let n = rng.below(40) as usize;
         let body: Vec<u8> = (0..n).map(|_| if binary { rng.next() as u8 } else { b'a' + (rng.below(26) as u8) }).collect();
         let start = rng.below(1000);
-        ContentRange { unit: "bytes".to_string(), range: Range { start, end: start + n as u64 }, size: (5000 + rng.below(100)).to_string(), body, content_type: "text/plain".to_string() }
+        ContentRange { unit: "bytes".to_string(), range: Range { start, end: start + rng.below(60) }, size: (5000 + rng.below(100)).to_string(), body, content_type: "text/plain".to_string() }
     }
     // independent rendering of the message (RFC 9112 2.1, RFC 9110 14.6)
     pub fn reference(r: &Response, method: &str) -> Vec<u8> {
